@@ -6,7 +6,7 @@ import random
 
 from harness.common import Ctx, byte_obligation, mi, read_scenario
 from oracles import vmdk as spec
-from oracles.mem import SymMem, SymOpaque
+from oracles.mem import Shifted, SymMem, SymOpaque
 from symx import core, files, layouts, loader, replay, stubs
 from symx.files import SymFile
 from symx.sbytes import Seg, SymBytes
@@ -148,12 +148,22 @@ def read_task(prop, cfg, tier, seed):
                 idx = ((gte >> 48) & 0xFFF) + ((gte % (1 << 48)) << 12)
                 E.assume(core.sym_or(core.sym_not(has_gt), typ <= 2,
                                      core.sym_and(typ == 3, idx <= 1 << 40, (grains_off + (idx + 1) * gs) * S <= fsize)))
+        so = 0
+        if cfg.get("sector_offset"):
+            # the extent is one of several: it starts at an arbitrary absolute sector of the assembled disk
+            so = E.var("sector_offset", 0, 1 << 40)
+            vars_["sector_offset"] = so
+            if par is not None:
+                par = Shifted(par, so * S)
         j = E.var("j", 0, 1 << 60)
         vars_.update(sector=sector, count=count, j=j)
         explen = core.sym_min(count, cap - sector) * S if cfg.get("tail") else count * S
 
         def spec_at(model, g, mems, ops):
-            return gbyte(g, mems["img"], ops.get("parent"), mi(model, fsize))
+            pp = ops.get("parent")
+            if pp is not None and cfg.get("sector_offset"):
+                pp = Shifted(pp, mi(model, so) * S)
+            return gbyte(g, mems["img"], pp, mi(model, fsize))
 
         def post_files(model, d):
             plains = {}
@@ -171,17 +181,17 @@ def read_task(prop, cfg, tier, seed):
 
         via = cfg.get("via", "vmdk")
         ctx.scenario = read_scenario(
-            ctx, E, vars_, entry="vmdk_sparse", params=lambda mo: dict(via=via, has_parent=has_parent),
-            call=lambda mo: (["read_sectors", mi(mo, sector), mi(mo, count)] if via == "disk" else
+            ctx, E, vars_, entry="vmdk_sparse", params=lambda mo: dict(via=via, has_parent=has_parent, sector_offset=mi(mo, so)),
+            call=lambda mo: (["read_sectors", mi(mo, so) + mi(mo, sector), mi(mo, count)] if via == "disk" else
                              ["_read", mi(mo, sector) * S, mi(mo, count) * S]),
             total=lambda mo: mi(mo, explen), g0=lambda mo: mi(mo, sector) * S, spec_at=spec_at, unit=gs * S, rng=rng, j=j,
             opaque=("parent",) if has_parent else (), sizes=dict(img=lambda mo: mi(mo, fsize)),
             prefer=[cap <= 1 << 34, count * S <= 16 << 20] + ([vars_["gd_sectors"] <= 4096] if kind == "sesparse" else []),
             post_files=post_files)
         if via == "disk":
-            disk = m.SparseDisk(fh, parent=ParentDisk() if has_parent else None)
+            disk = m.SparseDisk(fh, parent=ParentDisk() if has_parent else None, offset=so * S, sector_offset=so)
             size_ok = disk.size == cap * S
-            res = disk.read_sectors(sector, count)
+            res = disk.read_sectors(so + sector, count)
         else:
             obj = m.VMDK(fh)
             if has_parent:
